@@ -47,27 +47,6 @@ Definition lookup_spec (dflt : option V) (m : smap K V) (k : K) : eres V :=
   | None, None => EExn KeyError
   end.
 
-(* Operations of the defaulting variant that the refinement does NOT cover (they are the findings
-   C13-F1/F2 and the documented reading of get/setdefault): lower(); get-with-default, setdefault and
-   pop-with-default of an ABSENT key.  For the plain and the ordered class every operation is covered. *)
-Definition op_ok (dflt : option V) (m : smap K V) (o : op K V) : bool :=
-  match dflt with
-  | None => true
-  | Some _ =>
-    match o with
-    | OLower => false
-    | OGetD k _ => sm_has K V keqb lower m k
-    | OSetdefault k _ => sm_has K V keqb lower m k
-    | OPop k (Some _) => sm_has K V keqb lower m k
-    | _ => true
-    end
-  end.
-Fixpoint ops_ok (dflt : option V) (m : smap K V) (ops : list (op K V)) : bool :=
-  match ops with
-  | [] => true
-  | o :: r => op_ok dflt m o && ops_ok dflt (fst (spec_step K V keqb lower dflt m o)) r
-  end.
-
 (* states reachable through the public protocol *)
 Inductive reachable : cid K V -> Prop :=
 | r_init cl pairs : cl <> ClsDefault -> reachable (ci_init K V keqb lower cl pairs)
